@@ -6,7 +6,7 @@ PID = "C13"
 RULE = ("non-trivial = a nested 2-D/3-D/spherical case whose limit pairs are pairwise distinct (disjoint intervals per axis, so that a swapped "
         "argument or a swapped pair of limits is visible) with an integrand that is not symmetric under exchange of its arguments, or a 1-D case "
         "with reversed or equal limits, an explicit method_parameter, an unknown method name or a user function that is itself defined through an integral "
-        "(re-entrant call of the library), or a session of two or more calls made one after the other by one process, or a call made before main "
+        "(re-entrant call of the library), or a direct call of one of the two table overloads of Integrate_Gauss_Legendre that terminates or has two or more rows, or a session of two or more calls made one after the other by one process, or a call made before main "
         "(during the static initialisation of the caller's translation unit); distinct by case text")
 LEVEL_TEXT = ("Theorems (Coq, all inputs, over the reals): the dispatch of Integrate(func,a,b,method,parameter) — each of the six names selects its back end "
               "with the stated parameter default (Gauss-Kronrod depth 5, Gauss-Legendre_2 30 points), every other name terminates when the limits differ, equal "
@@ -18,8 +18,18 @@ LEVEL_TEXT = ("Theorems (Coq, all inputs, over the reals): the dispatch of Integ
               "through an integral (Integrate re-entered from inside its integrand with any method name and parameter at either level; the model has no state) integrates to the "
               "integral of x |-> outer(x, RInt inner(x,.)) under the same premise at both levels; the answer of a call does not depend on the calls the process made before it "
               "(the model of a process, run_session, answers each call by the stateless function of its own arguments: C13_answer_independent_of_history, C13_named_exact_after_history). "
-              "NOT theorems: the 1e-9 / 1e-6 accuracies of the four boost quadratures (external code) and of libphysica's own Gauss-Legendre and adaptive Simpson rules on smooth "
-              "integrands — these are checked on the implementation against closed-form integrals (S4) on every run; the Gallina model (the extracted term, with the library's own two "
+              "The library's own back ends: \"Adaptive-Simpson\" returns the exact integral of every polynomial of degree <= 5 for every tolerance, depth, orientation and method_parameter "
+              "(C13_adaptive_simpson_exact_to_degree_5: every accepted panel is Boole's rule; induction over the recursion); if no panel is left unconverged at the depth limit and the error of an accepted panel "
+              "is at most K times the difference of its two Simpson estimates (explicit premise on the integrand), the result is within 15 K 1e-9 |S0| of the integral, S0 the three-point estimate of Find_Epsilon "
+              "(C13_adaptive_simpson_error_bound_partial; C13_adaptive_simpson_recursion_bound for any depth and tolerance: the tolerances of the accepted panels add up to at most epsilon); that premise cannot be dropped - "
+              "the 1e-9 clause is FALSE of the method: C13_adaptive_simpson_accuracy_refuted exhibits a polynomial of degree 6 on [-1,1] (zeros at the five first samples) on which the model returns 0 for the integral 1/21 "
+              "(replayed on the implementation, which returns 0 as well: corpus/C13/known.case, known finding K-C13-2). \"Gauss-Legendre_2\", over any number type (in particular the doubles of the extracted model) and every n: the table "
+              "has n rows, a request that returns has evaluated the integrand exactly once at each of the n roots in order and nowhere else and returns the sum of value times weight (C13_gauss_legendre_table_size, C13_gauss_legendre_samples); "
+              "the chain of the three overloads of Integrate_Gauss_Legendre never reaches an exit branch of the inner two and equals the model used everywhere (C13_gauss_legendre_overload_chain), while sizes that differ or a row that is "
+              "not a root and a weight terminate (C13_gauss_legendre_malformed_exits; the two inner overloads are driven directly by the cases glvec / glfun and compared with the model bit for bit). "
+              "NOT theorems: the 1e-9 / 1e-6 accuracies of the four boost quadratures (external code), of libphysica's own Gauss-Legendre rule (the Newton iteration for the roots is not analysed: no statement on the quality of roots and weights) "
+              "and of the adaptive Simpson rule beyond degree 5 without the premise above, on smooth "
+              "integrands - these are checked on the implementation against closed-form integrals (S4) on every run; the Gallina model (the extracted term, with the library's own two "
               "back ends modelled line by line and the boost quadratures replaced by a stand-in rule) is compared with the C++ on every case: bit for bit for the own back ends, "
               "at the method's accuracy for boost. Also on the implementation only (S4): every front end equals, bit for bit, the back end of the method name called directly and nested "
               "level by level by the harness with the same method_parameter; the fixed rules evaluate n points per level; limits of different axes that coincide; nearly equal limits; "
@@ -30,7 +40,10 @@ LEVEL_TEXT = ("Theorems (Coq, all inputs, over the reals): the dispatch of Integ
               "parameter, every entry point), compared with the same call made from main (theorem for the model: C13_answer_independent_of_initialisation_phase); axes on scales of their own (2^-900 .. 2^900, mixed within one call, "
               "so that the product of the widths under- or overflows while the integral is an ordinary number); the nested trapezoidal rule with one curved level at every position (compared bit for bit with boost's rule nested by the harness, "
               "and with the closed form at the accuracy of one level). Known findings K-C13-1: Tanh-Sinh on intervals narrow relative to their position; K-C13-2: a panel of the adaptive Simpson rule accepted by its "
-              "|S2-S| test although it is off by far more than the tolerance.")
+              "|S2-S| test although it is off by far more than the tolerance; K-C13-3: the trapezoidal rule of boost stops after 12 refinements (2049 evaluations) short of 1e-6 on integrands with steep, opposite slopes at the limits. "
+              "Also on the implementation (S4): integrands that vanish where a rule takes its first samples (oscillations with limits and midpoint on their zeros or extrema, whole periods, a ladder of distances 1e-15..1e-4 from them; "
+              "polynomial and rational integrands with exact zeros at the limits and the midpoint, so that the tolerance of the adaptive Simpson rule is 0 or next to 0), sign-changing integrands under the adaptive Simpson rule, "
+              "and sessions whose numbers of points are congruent modulo every m <= 128 and the usual table sizes beyond (coarse first and fine first, across the entry points).")
 LEVEL_NOTE = ("Coq 8.16.1 kernel; theorems over R use the standard library's real-number axioms and Coquelicot's RInt (axioms listed in the evidence); premises carried by the theorems: "
               "exactness of the selected 1-D back end on the integrands that occur, continuity/integrability of the integrand; boost::math::quadrature (trapezoidal, gauss<30>, "
               "gauss_kronrod<31>, tanh_sinh) is external code modelled as a Section variable; hand-written model tied by differential correspondence (extraction with ExtrOcamlBasic only)")
@@ -46,6 +59,8 @@ ASSUMPTIONS = ["a call 'before main' is made from the constructor of the last na
                "'smooth' is instantiated as: damped oscillations exp(-a v)cos(w v) with at most two periods on the interval, 1/(1+k v^2) with k<=2, Gaussians exp(-k (v-mu)^2) with k<=4, polynomials of degree <= 3, on intervals of width 0.5..1.5 "
                "(and of widths down to one ulp, and at offsets up to 1e9, in one dimension, with the rounding of the abscissae 3*2^-53 max|x| sup|g'| |b-a| added to the slack); for Gauss-Legendre_2 with an explicit number n >= 48 of points also "
                "sharply peaked Gaussians whose classical n-point Gauss error bound on the Bernstein ellipse is below 1e-11 of the integral (for which the default 30 points are not enough)",
+               "further smooth integrands, in one dimension: damped sines exp(-a v) sin(w v) and cosines with limits on their zeros and extrema (up to two periods) and at relative distances 1e-15 .. 1e-4 from them, and the polynomials "
+               "(v-A)(B-v)(v-C)^2, u^2(h^2-u^2)(u^2-h^2/4) and the rational functions u^2(h^2-u^2)/(h^2+k u^2) (u = v-C, C the midpoint and h the half width of [A,B], dyadic), which vanish at the limits and the midpoint (and the quarter points)",
                "a user function defined through an inner integral is expected within (accuracy of the inner method) * (integral of |inner integrand|) * (outer width) in addition; under an adaptive outer method the inner method is one that is accurate to rounding on the smooth families",
                "sharply peaked integrands under Gauss-Kronrod with explicit recursion depths 1..15 carry no accuracy claim; they are compared bit for bit with the direct nested call of boost's gauss_kronrod with the same depth"]
 
@@ -77,6 +92,18 @@ class Fac:
             for _ in range(k - 1): t = f"* {v} {t}"
             return f"* c {hx(p[0])} {t}"
         if n == "affine": return f"+ c {hx(p[0])} * c {hx(p[1])} {v}"
+        if n == "dampsin": return f"* exp neg * c {hx(p[0])} {v} sin * c {hx(p[1])} {v}"
+        if n == "zpoly":
+            C = (p[0] + p[1]) / 2
+            return f"* * - {v} c {hx(p[0])} - c {hx(p[1])} {v} * - {v} c {hx(C)} - {v} c {hx(C)}"
+        if n == "zrat":
+            C = (p[0] + p[1]) / 2; h = (p[1] - p[0]) / 2
+            UU = f"* - {v} c {hx(C)} - {v} c {hx(C)}"
+            return f"/ * {UU} - c {hx(h * h)} {UU} + c {hx(h * h)} * c {hx(p[2])} {UU}"
+        if n == "zfive":
+            C = (p[0] + p[1]) / 2; h = (p[1] - p[0]) / 2
+            UU = f"* - {v} c {hx(C)} - {v} c {hx(C)}"
+            return f"* * {UU} - c {hx(h * h)} {UU} - {UU} c {hx(h * h / 4)}"
         raise ValueError(n)
 
     def g(self, t):
@@ -87,6 +114,12 @@ class Fac:
         if n == "gauss": return math.exp(-p[0] * (t - p[1]) ** 2)
         if n == "mono": return p[0] * t ** int(p[1])
         if n == "affine": return p[0] + p[1] * t
+        if n == "dampsin": return math.exp(-p[0] * t) * math.sin(p[1] * t)
+        if n == "zpoly": C = (p[0] + p[1]) / 2; return (t - p[0]) * (p[1] - t) * ((t - C) * (t - C))
+        if n == "zrat":
+            C = (p[0] + p[1]) / 2; h = (p[1] - p[0]) / 2; uu = (t - C) * (t - C)
+            return uu * (h * h - uu) / (h * h + p[2] * uu)
+        if n == "zfive": C = (p[0] + p[1]) / 2; h2 = ((p[1] - p[0]) / 2) ** 2; uu = (t - C) * (t - C); return uu * (h2 - uu) * (uu - h2 / 4)
 
     def G(self, t):
         n, p = self.name, self.p
@@ -97,6 +130,17 @@ class Fac:
         if n == "gauss": s = math.sqrt(p[0]); return math.sqrt(math.pi) / (2 * s) * math.erf(s * (t - p[1]))
         if n == "mono": k = int(p[1]); return p[0] * t ** (k + 1) / (k + 1)
         if n == "affine": return p[0] * t + p[1] * t * t / 2
+        if n == "dampsin":
+            a, w = p; return -math.exp(-a * t) * (a * math.sin(w * t) + w * math.cos(w * t)) / (a * a + w * w)
+        if n == "zpoly":            # (h^2 - u^2) u^2 with u = t - C
+            C = (p[0] + p[1]) / 2; h = (p[1] - p[0]) / 2; u = t - C
+            return h * h * u ** 3 / 3 - u ** 5 / 5
+        if n == "zrat":             # h^2 times u^2 (1 - u^2) / (1 + k u^2) = -u^2/k + m - m / (1 + k u^2), m = (1 + 1/k)/k, u = (t - C)/h
+            C = (p[0] + p[1]) / 2; h = (p[1] - p[0]) / 2; k = p[2]; u = (t - C) / h; m = (1.0 + 1.0 / k) / k
+            return h ** 3 * (-u ** 3 / (3 * k) + m * u - m * math.atan(math.sqrt(k) * u) / math.sqrt(k))
+        if n == "zfive":            # u^2 (h^2 - u^2)(u^2 - h^2/4) = -u^6 + 5/4 h^2 u^4 - h^4/4 u^2
+            C = (p[0] + p[1]) / 2; h = (p[1] - p[0]) / 2; u = t - C
+            return -u ** 7 / 7 + h * h * u ** 5 / 4 - h ** 4 * u ** 3 / 12
 
     def dtext(self, v):
         """text of the derivative g'(v)"""
@@ -121,6 +165,12 @@ class Fac:
         if n == "gauss": return -2.0 * p[0] * (t - p[1]) * math.exp(-p[0] * (t - p[1]) ** 2)
         if n == "mono": k = int(p[1]); return 0.0 if k == 0 else p[0] * k * t ** (k - 1)
         if n == "affine": return p[1]
+        if n == "dampsin": return math.exp(-p[0] * t) * (-p[0] * math.sin(p[1] * t) + p[1] * math.cos(p[1] * t))
+        if n == "zpoly": C = (p[0] + p[1]) / 2; h = (p[1] - p[0]) / 2; u = t - C; return 2 * h * h * u - 4 * u ** 3
+        if n == "zrat":
+            C = (p[0] + p[1]) / 2; h2 = ((p[1] - p[0]) / 2) ** 2; k = p[2]; u = t - C; uu = u * u; D = h2 + k * uu
+            return 2 * u * ((h2 - 2 * uu) * D - k * uu * (h2 - uu)) / (D * D)
+        if n == "zfive": C = (p[0] + p[1]) / 2; h2 = ((p[1] - p[0]) / 2) ** 2; u = t - C; return -6 * u ** 5 + 5 * h2 * u ** 3 - h2 * h2 * u / 2
 
     def dl1(self, a, b, want_sign=False):
         """integral of |g'| between the limits (composite Simpson, 256 panels); with want_sign also whether g' keeps one sign there"""
@@ -178,6 +228,7 @@ class SFac(Fac):
     def __init__(self, c, s, base): self.name = "scl"; self.p = (float(c), float(s)); self.base = base
     def text(self, v): return f"* c {hx(self.p[0])} {self.base.text(f'/ {v} c {hx(self.p[1])}')}"
     def g(self, t): return self.p[0] * self.base.g(t / self.p[1])
+    def dg(self, t): return self.p[0] / self.p[1] * self.base.dg(t / self.p[1])
     def integral(self, a, b): return (self.p[0] * self.p[1]) * self.base.integral(a / self.p[1], b / self.p[1])
     def l1(self, a, b): return (self.p[0] * self.p[1]) * self.base.l1(a / self.p[1], b / self.p[1])
     def node_slack(self, a, b): return (self.p[0] * self.p[1]) * self.base.node_slack(a / self.p[1], b / self.p[1])
@@ -185,7 +236,7 @@ class SFac(Fac):
     def ann(self): return "scl " + " ".join(hx(x) for x in self.p) + " " + self.base.ann()
 
 
-NPAR = {"dampcos": 2, "expdec": 1, "rational": 1, "gauss": 2, "mono": 2, "affine": 2}
+NPAR = {"dampcos": 2, "expdec": 1, "rational": 1, "gauss": 2, "mono": 2, "affine": 2, "dampsin": 2, "zpoly": 2, "zrat": 3, "zfive": 2}
 
 
 def parse_ann(tokens):
@@ -429,6 +480,157 @@ def generate(rng, tier):
     cs += gen_trapezoid_levels(rng, big)
     cs += gen_scales(rng, big, P)
     cs += gen_preinit(rng, big, P)
+    cs += gen_zero_samples(rng, big, P)
+    cs += gen_gl_overloads(rng, big)
+    return cs
+
+
+# ---- the two public overloads of Integrate_Gauss_Legendre that take a table of roots and weights (the back end of "Gauss-Legendre_2" ends in them):
+#      tables of 0 .. 100 rows, values and tables of equal and of different sizes, rows that do not consist of a root and a weight (one, three or - for the
+#      overload that does not read the root - no component), first, in the middle, last
+def gen_gl_overloads(rng, big):
+    cs = []
+
+    def fl(v): return f"{len(v)} " + " ".join(hx(x) for x in v) if v else "0"
+    def tab(rows): return f"{len(rows)} " + " ".join(fl(r) for r in rows) if rows else "0"
+
+    def table(n):
+        return [[rng.uniform(-3.0, 3.0), rng.uniform(0.01, 0.5) * rng.choice([1, 1, 1, -1])] for _ in range(n)]
+
+    def spoil(rows, allow_empty):
+        rows = [list(r) for r in rows]
+        k = rng.choice([0, len(rows) - 1, rng.randrange(len(rows))])
+        how = rng.choice(["short", "long", "empty"] if allow_empty else ["short", "long"])
+        rows[k] = {"short": rows[k][:1], "long": rows[k] + [rng.uniform(-1, 1)], "empty": []}[how]
+        return rows, how
+    sizes = [0, 1, 2, 3, 5, 30, rng.randint(6, 100)] + ([64, 100, 257] if big else [])
+    for rep in range(3 if big else 1):
+        for n in sizes:
+            rows = table(n); fv = [rng.uniform(-2.0, 2.0) for _ in range(n)]
+            cs.append(Case(f"glvec {fl(fv)} {tab(rows)}", ("glvec", "well-formed")))
+            for dn in ((-1, 1, 2) if big else (rng.choice([-1, 1]),)):
+                if n + dn < 0: continue
+                fv2 = [rng.uniform(-2.0, 2.0) for _ in range(n + dn)]
+                cs.append(Case(f"glvec {fl(fv2)} {tab(rows)}", ("glvec", "sizes-differ")))
+            if n > 0:
+                bad, how = spoil(rows, True)
+                cs.append(Case(f"glvec {fl(fv)} {tab(bad)}", ("glvec", "row-" + how)))
+                if rng.random() < 0.3: cs.append(Case(f"glvec {fl(fv[:-1])} {tab(bad)}", ("glvec", "sizes-differ", "row-" + how)))
+            f = rand_fac(rng, -3.0, 3.0)
+            cs.append(Case(f"glfun {tab(rows)} {f.text('x')} # glf {f.ann()}", ("glfun", "well-formed")))
+            if n > 0:
+                bad, how = spoil(rows, False)
+                cs.append(Case(f"glfun {tab(bad)} {f.text('x')} # glf {f.ann()}", ("glfun", "row-" + how)))
+    return cs
+
+
+def parse_gl(line):
+    """(op, values or None, rows, factor or None) of a glvec / glfun line"""
+    body, _, ann = line.partition(" # ")
+    t = body.split(); k = 1
+
+    def rl():
+        nonlocal k
+        n = int(t[k]); v = [float.fromhex(x) for x in t[k + 1:k + 1 + n]]; k += 1 + n
+        return v
+    fv = rl() if t[0] == "glvec" else None
+    m = int(t[k]); k += 1
+    rows = [rl() for _ in range(m)]
+    f = parse_ann(ann.split())[1][0] if ann else None
+    return t[0], fv, rows, f
+
+
+def predicates_gl(line, io):
+    """Integrate_Gauss_Legendre(values, table) / (func, table): terminates exactly when the sizes differ or a row is not a root and a weight; else the sum of
+    value times weight (the function evaluated once per row, at the root)"""
+    out = []
+    if io.startswith("CRASH"): return [("CRASH:" + line.split()[0], f"the implementation ended with {io} on this request")]
+    if io.startswith(("SANITIZER", "TIMEOUT", "HARNESSERR")): return out
+    op, fv, rows, f = parse_gl(line)
+    must_exit = any(len(r) != 2 for r in rows) or (fv is not None and len(fv) != len(rows))
+    if io.startswith("EXIT"):
+        if not must_exit: out.append((f"{op}:exit", "a table of roots and weights with matching sizes and rows of two components terminated the process"))
+        return out
+    if must_exit:
+        out.append((f"{op}:malformed-accepted", f"sizes that differ or a row that is not a root and a weight were accepted (answer {io[:40]})")); return out
+    v = parse_vals(io)
+    vals = fv if fv is not None else [f.g(r[0]) for r in rows]
+    terms = [x * r[1] for x, r in zip(vals, rows)]
+    want = math.fsum(terms); sc = math.fsum(abs(x) for x in terms)
+    slack = (len(rows) + 2) * 2.0 ** -52 * sc + (1e-14 * sc if fv is None else 0.0)
+    if not (abs(v[0] - want) <= slack): out.append((f"{op}:value", f"result {v[0]!r}, sum of value times weight {want!r} (difference {abs(v[0] - want):.3g} > {slack:.3g})"))
+    if fv is None and v[1] != len(rows): out.append((f"{op}:sample-count", f"a table of {len(rows)} rows but the function was evaluated {int(v[1])} times"))
+    return out
+
+
+# ---- integrands that vanish where a rule takes its first samples (the limits and the midpoint): damped oscillations whose zeros or extrema are the
+#      limits and the midpoint (any number of quarter periods up to two periods, starting at any zero or extremum; one or two whole periods from zero
+#      to zero put all three - resp. all five - first samples on zeros, so that the three-point estimate from which the adaptive Simpson rule derives
+#      its tolerance is next to nothing while the integral is not), limits on a geometric ladder of distances from such points; polynomial and rational
+#      integrands with exact zeros at both limits and at the midpoint (that estimate, and the tolerance, are then exactly 0); and sign-changing
+#      integrands under every method, the adaptive Simpson rule included
+ZERO_LADDER = (1e-15, 1e-14, 1e-13, 1e-12, 1e-11, 1e-10, 1e-9, 1e-8, 1e-7, 1e-6, 1e-5, 1e-4)
+
+
+def gen_zero_samples(rng, big, P):
+    cs = []
+    PI = math.pi
+
+    def osc(all_zero, m=None):
+        """a damped oscillation with limits on its lattice of zeros and extrema (quarter periods): all_zero = both limits and the midpoint are zeros"""
+        for _ in range(200):
+            kind = rng.choice(["dampsin", "dampcos"]); f = Fac(kind, rng.uniform(0.2, 1.5), rng.uniform(1.0, 4.0)); w = f.p[1]
+            if all_zero:
+                q0 = 2 * rng.randrange(-2, 3) + (1 if kind == "dampcos" else 0); mm = m or rng.choice([4, 4, 8])
+            else:
+                q0 = rng.randrange(-4, 5); mm = m or rng.choice([1, 2, 3, 5, 6, 7, 4, 8])
+            a, b = q0 * PI / (2 * w), (q0 + mm) * PI / (2 * w)
+            if abs(f.integral(a, b)) >= 0.05 * f.l1(a, b): return f, a, b
+        return Fac("dampsin", 0.3, 2.0), 0.0, PI
+
+    def zeros3():
+        """a polynomial or rational integrand with exact zeros at A, B and (A + B)/2 (dyadic numbers: the midpoint and the half width are exact), positive between them"""
+        A = rng.randrange(-48, 49) / 16.0; j = rng.randrange(4, 41); B = A + j / 8.0
+        return (Fac("zpoly", A, B) if rng.random() < 0.5 else Fac("zrat", A, B, rng.choice([1.0, 0.5, 2.0, rng.uniform(0.1, 2.0)]))), A, B
+
+    def emit(method, f, a, b, *tags):
+        if rng.random() < 0.4: a, b = b, a
+        p = P(method, rng.random() < 0.3)
+        cs.append(Case(f"named1d {method} {p} {hx(a)} {hx(b)} {f.text('x')} # 1d {f.ann()}", ("named1d", method, "zero-samples") + tags))
+
+    for method in METHODS:
+        AS = method == "Adaptive-Simpson"
+        # the three first samples on zeros of the oscillation (adaptive Simpson: bisection down to the depth limit, 2^21 evaluations)
+        for _ in range(2 if big else 1):
+            f, a, b = osc(True)
+            emit(method, f, a, b, "zeros-of-oscillation")
+        # the same at a geometric ladder of distances (relative to the width) from the zeros, both limits moved or only one
+        # (adaptive Simpson, quick tier: distances from 1e-11 on - closer ones cost as much as the zeros themselves)
+        for step in (rng.sample(ZERO_LADDER[:4], 2) + list(ZERO_LADDER[4:]) if big and AS else rng.sample(ZERO_LADDER[4:7], 1) + rng.sample(ZERO_LADDER[7:10], 1) + rng.sample(ZERO_LADDER[10:], 1) if AS
+                     else rng.sample(ZERO_LADDER[:6], 1) + rng.sample(ZERO_LADDER[6:], 1) if big else rng.sample(ZERO_LADDER, 1)):
+            f, a, b = osc(True)
+            sh = step * (b - a) * rng.choice([-1, 1]); how = rng.randrange(3)
+            if how != 1: a += sh
+            if how != 2: b += sh
+            emit(method, f, a, b, "near-zeros-of-oscillation")
+        # limits on zeros and extrema, any number of quarter periods
+        for _ in range(4 if big else 1):
+            f, a, b = osc(False)
+            emit(method, f, a, b, "quarter-periods")
+        # exact zeros at the limits and the midpoint
+        for _ in range(4 if big else 2 if AS else 1):
+            f, A, B = zeros3()
+            emit(method, f, A, B, "exact-zeros")
+        # exact zeros at all five first samples (limits, midpoint, quarter points): a polynomial of degree 6 with a non-zero integral
+        # (adaptive Simpson: both estimates and the tolerance are 0 - theorem C13_adaptive_simpson_accuracy_refuted, known finding K-C13-2)
+        if AS or big or rng.random() < 0.3:
+            A = rng.randrange(-48, 49) / 16.0; B = A + rng.randrange(1, 11) / 2.0
+            emit(method, Fac("zfive", A, B), A, B, "five-exact-zeros")
+    # sign-changing integrands at ordinary limits under the adaptive Simpson rule (its tolerance is relative to its own three-point estimate)
+    for _ in range(12 if big else 4):
+        a, b = limits(rng, rng.randrange(3), True)
+        if rng.random() < 0.3: a, b = a - 3.0, b - 3.0
+        emit("Adaptive-Simpson", rand_fac(rng, a, b), a, b, "sign-changing")
     return cs
 
 
@@ -725,6 +927,23 @@ def gen_sessions(rng, big, P):
                 if rng.random() < 0.4:
                     a2, b2 = interval(); seq.append(c1(GL2, fine, b2, a2, rand_fac(rng, a2, b2)))
                 emit(seq[::-1] if order else seq, "points-low-bits", "coarse-first" if not order else "fine-first")
+        # numbers of points that are congruent modulo m, for every m up to 128 and the usual sizes of tables beyond (a rule kept from an earlier call
+        # under a reduced key, of which the low bits above are the case m = 2^k): the coarse rule first, then n0 + m for every m; once the other way round
+        n0 = rng.randint(2, 9)
+        ms = list(range(1, 129)) + [130, 150, 160, 192, 200, 250, 256, 300, 400, 500, 512, 1000, 1024] + ([2000, 2048, 4096] if big else [])
+        rev = rng.randrange(0, len(ms), 12)
+        for k0 in range(0, len(ms), 12):
+            a, b = interval(); f = rand_fac(rng, a, b)
+            seq = [c1(GL2, n0, a, b, f)] + [c1(GL2, n0 + m, a, b, f) for m in ms[k0:k0 + 12]]
+            emit(seq[::-1] if k0 == rev else seq, "points-congruent", "coarse-first" if k0 != rev else "fine-first")
+        # the same across the entry points: the coarse rule through one entry point, the congruent number of points through another
+        for m in (rng.sample([16, 32, 50, 64, 100, 128, 200, 256], 2) if not big else [16, 32, 50, 64, 100, 128, 200, 256]):
+            n1 = rng.randint(2, 6)
+            a, b = interval(); f = rand_fac(rng, a, b)
+            lims = [limits(rng, k, rng.random() < 0.6) for k in range(2)]; facs = [rand_fac(rng, *lims[k]) for k in range(2)]
+            seq = rng.choice([[c2(GL2, n1, lims, facs), c1(GL2, n1 + m, a, b, f), c2(GL2, n1 + m, lims, facs)],
+                              [c1(GL2, n1, a, b, f), c2(GL2, n1 + m, lims, facs), c1(GL2, n1 + m, b, a, f)]])
+            emit(seq, "points-congruent", "entry-points-mixed")
         # adjacent, double, equal numbers of points; the default against the explicit 30
         n = rng.randint(20, 40)
         for pair in ((n, n + 1), (n + 1, n), (n, 2 * n), (2 * n, n), (n, n), (0, 30), (30, 0), (0, 30 + 2 ** rng.randrange(3, 9)), (30 + 2 ** rng.randrange(3, 9), 0), (rng.randint(1, 12), 30, 0)):
@@ -1153,6 +1372,7 @@ def dims(op): return {"named1d": 1, "nested2d": 2, "nested3d": 3, "spherical": 3
 
 # ---------------------------------------------------------------- model vs implementation
 def compare(c, io, mo, tol):
+    if c.line.startswith(("glvec ", "glfun ")): return compare_lines(io, mo, (1e-13, 0.0))
     if c.line.startswith("preinit "):
         if io == mo: return True, True, ""
         a, b = io.split(), mo.split()
@@ -1189,6 +1409,8 @@ def compare_call(line, io, mo):
         # external back end replaced by a stand-in rule in the model: values agree at the accuracy of the method on the smooth
         # families; on the sharply peaked integrands of the 'corr' kinds the stand-in says nothing about the external code
         if ann and ann[0] in CORR: return True, False, ""
+        # where boost's trapezoidal rule stops at its refinement cap short of its accuracy (K-C13-3, reported by the predicates) the stand-in has nothing to be compared with
+        if method == "Trapezoidal" and es and len(a) > 2 and a[2].isdigit() and trapezoid_refinement_cap(op, lim, ann, int(a[2]), tokf(a[0]), es[0]): return True, False, ""
         slack = dims(op) * acc_of(method) * scale + 1e-13 * scale + 2 * (es[2] if es else 0.0)
         for k in range(nval):
             x, y = tokf(a[k]), tokf(b[k])
@@ -1244,6 +1466,17 @@ def as_false_acceptance(op, lim, ann, val, ex, slack):
     except (OverflowError, ZeroDivisionError, ValueError): return False
 
 
+def trapezoid_refinement_cap(op, lim, ann, neval, val, ex):
+    """known finding K-C13-3: the trapezoidal rule of boost stops after 12 halvings (2049 evaluations); what is left then is the Euler-Maclaurin term
+    h^2/12 (f'(b) - f'(a)), h = (b - a)/2048, of the composite rule.  Did the call stop there, and is that term what the implementation is off by?"""
+    try:
+        if op != "named1d" or neval != 2049 or not ann or ann[0] != "1d": return False
+        f = parse_ann(ann)[1][0]; a, b = lim
+        E = (b - a) ** 2 / (2048.0 ** 2 * 12.0) * (f.dg(b) - f.dg(a))
+        return abs((val - ex) - E) <= 0.05 * abs(E)
+    except (OverflowError, ZeroDivisionError, ValueError, TypeError): return False
+
+
 def inexact_levels(op, method, ann, d):
     """the number of nesting levels on which the method's accuracy is spent: all of them, except that the trapezoidal rule is exact (to rounding) on a level
     whose variable enters the integrand through a polynomial of degree <= 1, and on the two angular levels of a radial profile (constant in the angles)"""
@@ -1254,6 +1487,7 @@ def inexact_levels(op, method, ann, d):
 
 
 def predicates(c, io):
+    if c.line.startswith(("glvec ", "glfun ")): return predicates_gl(c.line, io)
     if c.line.startswith("preinit "): return predicates_preinit(c.line, io)
     if not c.line.startswith("session "): return predicates_call(c.line, io)
     out = []
@@ -1353,12 +1587,14 @@ def predicates_call(line, io):
         slack = inexact_levels(op, method, ann, d) * acc_of(method) * sc + 1e-13 * sc + extra
         if not (abs(val - ex) <= slack):
             region = ":tanh-sinh-narrow-interval" if tanh_sinh_narrow(op, method, lim) else \
-                     ":adaptive-simpson-false-acceptance" if method == "Adaptive-Simpson" and as_false_acceptance(op, lim, ann, val, ex, slack) else ""
+                     ":adaptive-simpson-false-acceptance" if method == "Adaptive-Simpson" and as_false_acceptance(op, lim, ann, val, ex, slack) else \
+                     ":trapezoidal-refinement-cap" if method == "Trapezoidal" and trapezoid_refinement_cap(op, lim, ann, neval, val, ex) else ""
             out.append((f"{op}:value" + region, f"{method}: result {val!r}, exact integral {ex!r} (difference {abs(val-ex):.3g} > {slack:.3g})"))
     return out
 
 
 def nontrivial(c, io):
+    if c.line.startswith(("glvec ", "glfun ")): return io.startswith("EXIT") or (not io.startswith(("CRASH", "TIMEOUT", "SANITIZER", "HARNESSERR")) and int(c.line.split()[1]) >= 2)
     if c.line.startswith("preinit "): return not io.startswith(("CRASH", "TIMEOUT", "SANITIZER", "HARNESSERR"))
     if c.line.startswith("session "): return len(split_session(c.line)) >= 2 and not io.startswith(("CRASH", "EXIT", "TIMEOUT", "SANITIZER", "HARNESSERR"))
     op, method, p, lim, fex, ann = parse_case(c.line)
